@@ -291,7 +291,7 @@ package evaluator
 //@     invariant forall k Int :: {at(heap, x, k)} 0 <= k && k < iter ==> specEq(heap, at(heap, x, k), at(heap, y, k))
 //@   loop 2
 //@     invariant isObj(x0) && isObj(y0) && x == obj(x0) && y == obj(y0) && mlen(heap, x) == mlen(heap, y)
-//@     invariant forall k Int :: {it_seen[k]} it_seen[k] ==> mhasKey(heap, y, k) && specEq(heap, mgetKey(heap, x, k), mgetKey(heap, y, k))
+//@     invariant[C20 C15] forall k Int :: {it_seen[k]} it_seen[k] ==> mhasKey(heap, y, k) && specEq(heap, mgetKey(heap, x, k), mgetKey(heap, y, k))
 
 //@ func contains
 //@   tags C20 C02
@@ -580,8 +580,10 @@ package evaluator
 //@   requires node.nonnil: node != nil
 //@   loop 1
 //@     invariant fresh(results) && results != nil
-//@     invariant[C19 C01] forall k Int :: {it_seen[k]} it_seen[k] ==> mhasKey(heap, results, k) && isEv(e.root, getKey(as(node0, "parser.DefineVariables").Variables, k), current, variables, mgetKey(heap, results, k))
-//@     invariant[C19 C01] forall k Int :: {mhasKey(heap, results, k)} mhasKey(heap, results, k) ==> it_seen[k]
+//@     invariant[C19 C01 C15] forall k Int :: {it_seen[k]} it_seen[k] ==> mhasKey(heap, results, k) && isEv(e.root, getKey(as(node0, "parser.DefineVariables").Variables, k), current, variables, mgetKey(heap, results, k))
+//@     invariant[C19 C01 C15] forall k Int :: {mhasKey(heap, results, k)} mhasKey(heap, results, k) ==> it_seen[k]
+//@   loop 3
+//@     invariant[C15 C02] forall k Int :: {it_seen[k]} it_seen[k] ==> mhasKey(heap, result, k) && mgetKey(heap, result, k) == mgetKey(heap, m, k)
 //@   loop 4
 //@     invariant true
 //@   loop 5
@@ -592,12 +594,12 @@ package evaluator
 //@     invariant[C01 C17] forall k Int :: 0 <= k && k < iter ==> isEv(e.root, node.Fields[k], current, variables, results[k])
 //@   loop 7
 //@     invariant fresh(results) && results != nil
-//@     invariant[C01 C17] forall k Int :: {it_seen[k]} it_seen[k] ==> mhasKey(heap, results, k) && isEv(e.root, getKey(node.Fields, k), child, variables, mgetKey(heap, results, k))
-//@     invariant[C01 C17] forall k Int :: {mhasKey(heap, results, k)} mhasKey(heap, results, k) ==> it_seen[k]
+//@     invariant[C01 C17 C15] forall k Int :: {it_seen[k]} it_seen[k] ==> mhasKey(heap, results, k) && isEv(e.root, getKey(node.Fields, k), child, variables, mgetKey(heap, results, k))
+//@     invariant[C01 C17 C15] forall k Int :: {mhasKey(heap, results, k)} mhasKey(heap, results, k) ==> it_seen[k]
 //@   loop 8
 //@     invariant fresh(results) && results != nil
-//@     invariant[C01 C17] forall k Int :: {it_seen[k]} it_seen[k] ==> mhasKey(heap, results, k) && isEv(e.root, getKey(node.Fields, k), current, variables, mgetKey(heap, results, k))
-//@     invariant[C01 C17] forall k Int :: {mhasKey(heap, results, k)} mhasKey(heap, results, k) ==> it_seen[k]
+//@     invariant[C01 C17 C15] forall k Int :: {it_seen[k]} it_seen[k] ==> mhasKey(heap, results, k) && isEv(e.root, getKey(node.Fields, k), current, variables, mgetKey(heap, results, k))
+//@     invariant[C01 C17 C15] forall k Int :: {mhasKey(heap, results, k)} mhasKey(heap, results, k) ==> it_seen[k]
 //@   loop 9
 //@     invariant len(values) == len(node.Arguments) && fresh(values) && 0 <= count && (iter >= 1 ==> count <= MaxAlloc)
 //@     invariant forall k Int :: 0 <= k && k < iter ==> count <= len(values[k])
@@ -639,6 +641,7 @@ package evaluator
 //@   ensures[C01] nonnull: isObj(value) && err == nil ==> (forall k Int :: 0 <= k && k < len(arr(result)) ==> arr(result)[k] != nil)
 //@   loop 1
 //@     invariant fresh(r) && (forall k Int :: 0 <= k && k < len(r) ==> r[k] != nil)
+//@     invariant[C15] len(r) <= it_n
 //@ func evaluator.groupBy
 //@   tags C03 C06 C02
 //@   requires node != nil
@@ -667,19 +670,19 @@ package evaluator
 //@ func items
 //@   tags C03 C06 C15 C02
 //@   loop 1
-//@     invariant i == it_n && len(r) == len(m) && fresh(r)
+//@     invariant[C03 C06 C15] i == it_n && len(r) == len(m) && fresh(r)
 //@ func keys
 //@   tags C03 C06 C15 C02
 //@   loop 1
-//@     invariant i == it_n && len(r) == len(m) && fresh(r)
+//@     invariant[C03 C06 C15] i == it_n && len(r) == len(m) && fresh(r)
 //@ func values
 //@   tags C03 C06 C15 C02
 //@   loop 1
-//@     invariant i == it_n && len(r) == len(m) && fresh(r)
+//@     invariant[C03 C06 C15] i == it_n && len(r) == len(m) && fresh(r)
 //@ func objectValues
 //@   tags C03 C06 C15 C01
 //@   loop 1
-//@     invariant i == it_n && len(r) == len(m) && fresh(r)
+//@     invariant[C03 C06 C15] i == it_n && len(r) == len(m) && fresh(r)
 
 //@ func reverse
 //@   tags C03 C06 C11 C09
